@@ -67,6 +67,15 @@ f4(32, 'fixed', 'nil <- c: nil pointer dereference in the type checker', prog('p
 f4(33, 'fixed', '.(type) nested in an expression: checker panics "unexpected: <nil> (type <nil>)"', prog('package main\n\nfunc main() {\n\tvar x interface{} = 1\n\tswitch xx := x.(type).(type) {\n\tdefault:\n\t\t_ = xx\n\t}\n}\n'), 'C04-checker-type-guard-outside-switch.diff')
 f4(34, 'fixed', '_, a := nil, 2: nil pointer dereference in the emitter (assignValuesToAddresses)', prog('package main\n\nfunc main() {\n\t_, a := nil, 2\n\t_ = a\n}\n'), 'C04-checker-blank-declared-nil.diff')
 f4(35, 'fixed', 'array type larger than the address space: reflect.ArrayOf panic reaches the host', prog('package main\n\nfunc main() {\n\tvar a ' + '[10] ' * 27 + 'int\n\tconst ca = len(a)\n}\n'), 'C04-checker-array-larger-than-address-space.diff')
+f4(36, 'fixed', 'a call of something that is not a macro name on the left of default in an extended file: interface conversion panic in checkDefault', tmpl('{% extends "layout.html" %}{% macro M %}x{% end %}', extra=[('layout.html', '{{ a.b() default "" }}')]), 'C04-36-default-call-non-identifier.diff')
+chain = lambda first, step, k: '\n'.join(['const c1 = ' + first] + ['const c%d = %s' % (i, step.replace('P', 'c%d' % (i - 1))) for i in range(2, k + 1)])
+f4(37, 'fixed', 'a chain of 40 doubling string constants (< 1 KB of source) makes Build copy gigabytes: no return in bounded time, then out of memory', prog('package main\n\n' + chain('"ab"', 'P + P', 40) + '\n\nfunc main() {\n\t_ = len(c40)\n}\n'), 'C04-37-constant-string-length.diff')
+f4(38, 'fixed', 'Inf - Inf on overflowed float constants: math/big ErrNaN panic reaches the host', prog('package main\n\n' + chain('1.5', 'P * P', 40) + '\n\nfunc main() {\n\t_ = c40 - c40\n}\n'), 'C04-38-float-constant-nan-panic.diff')
+f4(39, 'fixed', 'squaring a complex constant 35 times: ErrNaN panic inside the constant multiplication', prog('package main\n\n' + chain('1/3.0 + 1i', 'P * P', 40) + '\n\nfunc main() {\n\t_ = c40\n}\n'), 'C04-38-float-constant-nan-panic.diff')
+f4(40, 'fixed', 'Program.Disassemble of a function that calls more than 128 distinct functions: index out of range [-128] in funcNameType', prog('package main\n\n' + ''.join('func f%d() int { return %d }\n' % (i, i) for i in range(130)) + '\nfunc main() {\n' + ''.join('\t_ = f%d()\n' % i for i in range(130)) + '}\n'), 'C04-39-disassemble-uint8-index.diff')
+f4(41, 'fixed', 'a bare URL at the top level of an imported Markdown file: panic "internal error: unexpected node" in templateFileToPackage', tmpl('{% import "m.md" %}', main='index.md', extra=[('m.md', '{% macro A %}a{% end %} http://a.b/c')]), 'C04-40-toplevel-url-in-declarations-file.diff')
+f4(42, 'open', 'the parser, the type checker and the emitter recurse on nested sources without a depth limit: the goroutine stack overflows (fatal error, the process dies, not recoverable). With the Go default stack limit of 1 GB: chains of 300 000 unary operators / binary operators / selectors (300-600 KB of source) and 1 000 000 nested parentheses, blocks, composite literals, index expressions, pointer types, {% if %} blocks (2-22 MB) die after about 30 s; nested function literals between 30 000 and 100 000 levels. The workers cap stacks at 64 MiB, where every recursive construct overflows between 6 000 levels (function literals) and 50 000 levels (parentheses). A nesting limit needs several sites (parseExpr recursion, statement nesting, operator and selector chains, types) and a choice of limits: not a small repair. The generator stays at or below 4 000 levels while this is open; a stack overflow on a source that nests less deeply is reported.',
+   prog('package main\n\ntype T int\n\nvar x ' + '*' * 30000 + 'T\n\nfunc main() {}\n'), scope='nesting-depth>4000')
 json.dump(c04, open('/verif/harness/props/c04/findings.json', 'w'), indent=1, ensure_ascii=False)
 
 c21 = []
@@ -94,6 +103,10 @@ f21(15, 'fixed', 'limit errors of programs name the path "main" instead of the f
 f21(16, 'fixed', '"predeclared identifier itea not used" names the extended/importing file for a using statement of another file', tmpl('{% extends "extended.html" %}\n{% var V = 1; using %}content...{% end using %}', extra=[('extended.html', 'x')]), 'C21-itea-not-used-path.diff')
 f21(17, 'fixed', 'label errors in an extended file name the extending file', tmpl('{% extends "layout.html" %}\n{% macro Body %}{% end macro %}\n', extra=[('layout.html', '{% LX: select %}{% default %}{% break L %}{% end %}')]), 'C21-extended-file-scope-error-path.diff')
 f21(30, 'fixed', 'a newline right after </style or </script is not counted as a line', tmpl('<style>s{{a}}t</style\n\t\t\t\t{% extends{{a}}'), 'C21-lexer-end-tag-newline.diff')
+f21(31, 'fixed', '"unexpected text in file with extends / in imported file": End is one past the character (len(file) for a text at the end of the file)', tmpl('{% extends "l.html" %}a', extra=[('l.html', 'x')]), 'C21-first-non-space-end.diff')
+f21(32, 'fixed', 'limit errors of package-level initialisers are reported at 0:0 ($initvars has an empty position)', prog('package main\n\nvar x = []string{' + ', '.join('"s%d"' % i for i in range(300)) + '}\n\nfunc main() { _ = x }\n'), 'C21-initvars-limit-error-position.diff')
+f21(33, 'open', '[cycle|package-path] the CycleError of a program import cycle carries the import path of a package (cycle/foo) as Path(), not a file of the build, and for longer cycles not the package whose file contains the reported position; the repository tests (TestCyclicPrograms) expect the package path, so it cannot be repaired without editing them. Class (structural): cycle error of a program whose Path() is not a file of the file system.',
+    prog('package main\n\nimport _ "cycle/foo"\n\nfunc main() {}\n', extra=[('go.mod', 'module cycle\n'), ('foo/foo.go', 'package foo\n\nimport _ "cycle/foo"\n')]), scope='cycle|package-path')
 # the limit witness: many registers
 regs = 'package main\n\nfunc main() {\n' + ''.join('\tvar s%d []int\n' % i for i in range(140)) + '\tprintln(' + ', '.join('s%d' % i for i in range(140)) + ')\n}\n'
 c21[14]['witness']['data']['inputs'][0] = prog(regs)
